@@ -98,6 +98,8 @@ class Numbering(object):
                 return self._to_numbering_level(abstract_num.levels.get(level))
             else:
                 style = self._styles.find_numbering_style_by_id(abstract_num.num_style_link)
+                if style is None:
+                    return None
                 return self.find_level(style.num_id, level)
 
     def find_level_by_paragraph_style_id(self, style_id):
